@@ -139,3 +139,7 @@ PROPERTY = Property(
          "non-trivial = unsorted ranks and two equal-sized different teams; distinct by SHA-1",
     assumptions=["per-slot values for TM games with a pair beyond 5 sigma are left to C01 (excluded here, counted)"],
 )
+
+from vf import opt as _opt  # noqa: E402
+
+PROPERTY.clauses.append(_opt.optimised("C02", next(c for c in PROPERTY.clauses if c.name == "slot-correspondence"), quick=64, thorough=640))
